@@ -7,6 +7,20 @@ tools/rs2lean_fn.py — regenerates Lean definitions from the SOURCE TEXT of sel
   fn:intext   /repo/yui/src/misc/int_ext.rs + abst/euc_ring.rs     -> lean/Yuiv/Gen/IntExtFn.lean   (Props/C15Gen.lean)
   fn:qint     /repo/yui/src/types/qint.rs                          -> lean/Yuiv/Gen/QIntFn.lean     (Props/C14GenQ.lean, C15GenQ.lean)
   fn:ff       /repo/yui/src/types/ff.rs + f2.rs                    -> lean/Yuiv/Gen/FFFn.lean       (Props/C14GenF.lean)
+  fn:misc     /repo/yui-khovanov/src/misc.rs (+ kh/ss.rs, khi/ssi.rs)  -> lean/Yuiv/Gen/MiscFn.lean     (Props/C06Gen.lean)
+  fn:snf      /repo/yui-matrix/src/dense/snf.rs                    -> lean/Yuiv/Gen/SnfFn.lean      (Props/C09Gen.lean)
+
+Additions for fn:misc / fn:snf (see the target entries in TARGETS and Yuiv/Model/RustIter.lean, RustDense.lean):
+free functions of a file (`free_fns`), closures as auxiliary definitions (captured variables become parameters),
+`filter_map/filter/map/min_by/min/next/count` on containers modelled as lists, ranges `(a..b)`, extraction of a single
+top-level `let` of a function (`extract`); a generic ring `R` as a type with an explicit record `e : C09.EOps α`
+(`eops`), sized matrices with the field sizes given by the target (`field_dims`), `usize` as an unbounded `Nat`
+(`nat_usize`), `debug_assert!` under an extra argument `dbg`, `trace!/debug!/info!` as no-ops, index expressions
+`A[(i, j)]`, fixed-size arrays as tuples, `let [a, b] = x`, `let Some(x) = e else { return …/panic! }`,
+`if let Some(p) = self.f.as_mut() { … }` (in-place update of an `Option` field), `&mut self` methods that also return a
+value (result `(struct × value)`, callable inside expressions), `for k in lo..hi` with `continue`/`break` through
+`Loop.forRange` (the body is an auxiliary definition returning `Ctl`), labelled `'outer: loop` with `continue 'outer`
+from an inner `for` and `break`, a method rendered as a function parameter (`opaque_methods`: `preprocess` ↦ `pre`).
 
 A small translator for a restricted Rust subset.  It tokenises the file, parses items (enum, struct, impl blocks,
 trait default methods, consts, fn signatures, single-arm `macro_rules!`) and — per function — statements and expressions
@@ -64,7 +78,7 @@ Semantics emitted
     on fuel (`Res.err` when it runs out): the constant `loopFuel`, or — target option `fuel_param` — an explicit first
     argument `fuel` of every function that (transitively) contains a loop.
 
-Usage: rs2lean_fn.py [fn:bitseq] [fn:ratio] [fn:intext] [fn:qint] [fn:ff] [--src FILE]... [--out FILE]   (none = all)
+Usage: rs2lean_fn.py [fn:bitseq|fn:ratio|fn:intext|fn:qint|fn:ff|fn:misc|fn:snf]... [--src FILE]... [--out FILE]   (none = all)
   `--src` (once per source file of the target, in its order) and `--out` need exactly one target.
 Exit status 0: every selected generated file is up to date or was rewritten; 1: for some target something in a
 REQUIRED function (or in the item structure) is outside the subset — `rs2lean_fn: cannot translate: <what>` is printed
@@ -159,6 +173,39 @@ TARGETS = {
             ("FF2", "Add_FF2_ref", "add"), ("FF2", "Sub_FF2_ref", "sub"), ("FF2", "Mul_FF2_ref", "mul"),
             ("FF2", "Div_FF2_ref", "div"), ("FF2", "Rem_FF2_ref", "rem"),
             ("FF2", "Ring", "inv"), ("FF2", "Ring", "is_unit"), ("FF2", "Ring", "normalizing_unit")]),
+    "misc": dict(
+        src=["/repo/yui-khovanov/src/misc.rs", "/repo/yui-khovanov/src/kh/ss.rs", "/repo/yui-khovanov/src/khi/ssi.rs"],
+        out="MiscFn.lean", ns="Yuiv.GenMisc", scalar="Z", macros=False, fuel_param=True, int32=True, int_lit="W",
+        free_fns=True, list_types={"SpVec": "(usize,{0})"},
+        imports=["Yuiv.Model.Res", "Yuiv.Model.RustRing", "Yuiv.Model.RustI32", "Yuiv.Model.RustIter"],
+        blurb=["Free functions of yui-khovanov/src/misc.rs (`div`, `div_vec`: the c-adic valuation behind the s-invariant) and the",
+               "closing arithmetic of `ss_invariant` (kh/ss.rs) and `ssi_invariants` (khi/ssi.rs), extracted from their `let`s",
+               "(there the i32 values are read as unbounded integers).",
+               "`R := Int` (unbounded, Yuiv/Model/RustRing.lean); the counter `k` is an `i32` with overflow check (RustI32.lean);",
+               "`SpVec<R>` is the list of its `(index, value)` entries in iteration order; `filter_map(..).min()` is",
+               "`Iter.filterMapM` + `Iter.min` (Yuiv/Model/RustIter.lean); the `while` loop takes its fuel as an argument.",
+               "`Yuiv/Props/C06Gen.lean` proves them equal to the hand-written models `C06.div/divVec/ss`, `C19.ssi`."],
+        extract=[("ss", "ss_invariant", "ss", [("d", "Z"), ("w", "Z"), ("r", "Z")]),
+                 ("ssi", "ssi_invariants", "ss0", [("d0", "Z"), ("w", "Z"), ("r", "Z")]),
+                 ("ssi", "ssi_invariants", "ss1", [("d1", "Z"), ("w", "Z"), ("r", "Z")])],
+        required=[("misc", None, "div"), ("misc", None, "div_vec")]),
+    "snf": dict(
+        src="/repo/yui-matrix/src/dense/snf.rs", out="SnfFn.lean", ns="Yuiv.GenSnf", scalar="E", macros=False,
+        fuel_param=True, nat_usize=True, eops=True, dbg_param=True,
+        field_dims={("SnfCalc", "target"): ("m", "n"), ("SnfCalc", "p"): ("m", "m"), ("SnfCalc", "pinv"): ("m", "m"),
+                    ("SnfCalc", "q"): ("n", "n"), ("SnfCalc", "qinv"): ("n", "n")},
+        imports=["Yuiv.Model.Res", "Yuiv.Model.RustArith", "Yuiv.Model.RustRing", "Yuiv.Model.RustDense"],
+        blurb=["The methods of `impl SnfCalc<R>` (yui-matrix/src/dense/snf.rs).  `R` is a type `α` with an explicit record",
+               "`e : C09.EOps α` of its ring operations, `Mat<R>` the sized `C09.Mat α r c` (target m×n, p/pinv m×m, q/qinv n×n),",
+               "`usize` an unbounded `Nat`; dense primitives, `for k in lo..hi` (`Loop.forRange`) and the iterator chains are the",
+               "functions of Yuiv/Model/RustDense.lean; `debug_assert!` is guarded by the extra argument `dbg`; `while`/`loop` run",
+               "on the fuel argument; `&mut self` methods return the new struct (paired with their value); panics are `Res.panic`.",
+               "`Yuiv/Props/C09Gen.lean` proves them equal to the hand-written model `Yuiv/Model/C09.lean`."],
+        opaque_methods={("SnfCalc", "preprocess"): "pre"},
+        required=_req("SnfCalc", ("swap_rows", "swap_cols", "mul_row", "mul_col", "left_elementary", "right_elementary",
+                                  "gcdx", "row_nz", "col_nz", "select_pivot", "eliminate_row", "eliminate_col",
+                                  "eliminate_at", "eliminate_step", "eliminate_all", "diag_normalize_step",
+                                  "diag_normalize", "process"))),
     "intext": dict(
         src=["/repo/yui/src/misc/int_ext.rs", "/repo/yui/src/abst/euc_ring.rs"], out="IntExtFn.lean",
         ns="Yuiv.GenIntExt", scalar="Z", macros=True, fuel_param=True,
@@ -294,6 +341,7 @@ BINPREC = {"*": 11, "/": 11, "%": 11, "+": 10, "-": 10, "<<": 9, ">>": 9, "&": 8
 CMPOPS = {"==", "!=", "<", ">", "<=", ">="}
 ASSIGNOPS = {"=", "+=", "-=", "*=", "/=", "%=", "&=", "|=", "^=", "<<=", ">>="}
 BLOCKLIKE = {"if", "while", "for", "loop", "match", "unsafe"}
+NOOP_MACROS = {"trace", "debug", "info", "warn", "log::trace", "log::debug", "log::info"}
 
 
 class Parser:
@@ -517,9 +565,16 @@ class Parser:
             if self.at("let"):
                 line = self.next().line
                 pat = None
-                if self.at("("):                              # flat tuple pattern `(a, mut b, _)`
+                some_pat = None
+                if self.at("Some") and self.at("(", 1):       # `let Some(x) = e else { … }`
+                    self.next(); self.next()
+                    some_pat = "_" if self.eat("_") else self.ident()
+                    self.expect(")")
+                    name, mut = some_pat, False
+                elif self.at("(") or self.at("["):            # flat tuple / array pattern `(a, mut b, _)`, `[a, b]`
+                    close = ")" if self.at("(") else "]"
                     self.next(); pat = []
-                    while not self.at(")"):
+                    while not self.at(close):
                         m_ = self.eat("mut")
                         if self.at("_"):
                             self.next(); pat.append(("_", False))
@@ -528,7 +583,7 @@ class Parser:
                         if self.at("(") or self.at("{") or self.at("::") or self.at("@"):
                             raise Unsupported(f"`let` with a nested pattern (line {line})")
                         if not self.eat(","): break
-                    self.expect(")")
+                    self.expect(close)
                     name, mut = None, False
                 else:
                     mut = self.eat("mut")
@@ -542,9 +597,14 @@ class Parser:
                 if not self.eat("="):
                     raise Unsupported(f"`let` without initialiser (line {line})")
                 init = self.expr()
-                if self.at("else"): raise Unsupported(f"`let … else` (line {line})")
+                els = None
+                if self.at("else"):
+                    if some_pat is None: raise Unsupported(f"`let … else` with this pattern (line {line})")
+                    self.next(); els = self.block()
+                elif some_pat is not None:
+                    raise Unsupported(f"refutable `let Some(..)` without `else` (line {line})")
                 self.expect(";")
-                stmts.append(N("let", name=name, mut=mut, ty=ty, init=init, line=line, pat=pat))
+                stmts.append(N("let", name=name, mut=mut, ty=ty, init=init, line=line, pat=pat, els=els))
                 continue
             t = self.peek()
             if t.kind == "id" and t.val == "use":            # `use a::b::*;` / `use a::b::C;` inside a body
@@ -564,7 +624,7 @@ class Parser:
             if t.kind == "id" and t.val in ("struct", "enum", "impl", "const", "static", "type", "mod",
                                             "trait", "macro_rules"):
                 raise Unsupported(f"item `{t.val}` inside a function body (line {t.line})")
-            blocklike = (t.kind == "id" and t.val in BLOCKLIKE) or self.at("{")
+            blocklike = (t.kind == "id" and t.val in BLOCKLIKE) or self.at("{") or t.kind == "life"
             e = self.expr(stmt=True)
             if self.eat(";"):
                 stmts.append(N("expr", e=e, line=t.line))
@@ -580,7 +640,7 @@ class Parser:
     # -- expressions
     def expr(self, minp=0, nostruct=False, stmt=False):
         line = self.peek().line
-        if stmt and ((self.peek().kind == "id" and self.peek().val in BLOCKLIKE) or self.at("{")):
+        if stmt and ((self.peek().kind == "id" and self.peek().val in BLOCKLIKE) or self.at("{") or self.peek().kind == "life"):
             # a block-like expression in statement position ends the statement
             e = self.primary(nostruct)
             if self.at(".") or self.at("?"):
@@ -615,7 +675,11 @@ class Parser:
                 lhs = N("assign", op=op, l=lhs, r=rhs, line=t.line)
                 continue
             if op in ("..", "..=", "..."):
-                raise Unsupported(f"range expression (line {t.line})")
+                if op != ".." or 2 < minp: raise Unsupported(f"range expression `{op}` (line {t.line})")
+                self.next()
+                hi = self.expr(3, nostruct)
+                lhs = N("range", lo=lhs, hi=hi, line=t.line)
+                continue
             break
         return lhs
 
@@ -662,7 +726,9 @@ class Parser:
                 e = N("call", path=e.segs, args=self.args(), line=t.line)
                 continue
             if self.at("["):
-                raise Unsupported(f"index expression `[..]` (line {t.line})")
+                self.next(); ix = self.expr(); self.expect("]")
+                e = N("index", e=e, ix=ix, line=t.line)
+                continue
             if self.at("?"):
                 raise Unsupported(f"`?` operator (line {t.line})")
             return e
@@ -684,6 +750,9 @@ class Parser:
             return N("int", v=t.val, suffix=t.suffix, line=t.line)
         if t.kind in ("str", "char", "float"):
             raise Unsupported(f"string/char/float literal (line {t.line})")
+        if t.kind == "life" and self.at(":", 1) and self.at("loop", 2):
+            self.next(); self.next(); self.next()
+            return N("loop", body=self.block(), label=t.val, line=t.line)
         if t.kind == "life":
             raise Unsupported(f"loop label (line {t.line})")
         if t.kind == "p":
@@ -708,7 +777,13 @@ class Parser:
             if t.val in ("|", "||"):
                 return self.closure()
             if t.val == "[":
-                raise Unsupported(f"array expression (line {t.line})")
+                self.next(); es = []
+                while not self.at("]"):
+                    es.append(self.expr())
+                    if self.at(";"): raise Unsupported(f"array repeat expression (line {t.line})")
+                    if not self.eat(","): break
+                self.expect("]")
+                return N("tuple", es=es, array=True, line=t.line)
             raise Unsupported(f"unexpected `{t.val}` (line {t.line})")
         if t.kind != "id":
             raise Unsupported(f"unexpected `{t.val}` (line {t.line})")
@@ -724,7 +799,8 @@ class Parser:
                 self.next(); self.next(); var = self.ident(); self.next(); self.next()
                 sc = self.expr(nostruct=True)
                 th = self.block()
-                if not self.eat("else"): raise Unsupported(f"`if let` without `else` (line {t.line})")
+                if not self.eat("else"):
+                    return N("iflet", var=var, s=sc, th=th, el=None, line=t.line)
                 if self.at("if"): raise Unsupported(f"`if let … else if` (line {t.line})")
                 return N("iflet", var=var, s=sc, th=th, el=self.block(), line=t.line)
             c = self.expr(nostruct=True)
@@ -777,10 +853,11 @@ class Parser:
             return N("return", e=e, line=t.line)
         if kw in ("continue", "break"):
             self.next()
-            if self.peek().kind == "life": raise Unsupported(f"labelled `{kw}` (line {t.line})")
+            label = None
+            if self.peek().kind == "life": label = self.next().val
             if kw == "break" and not (self.at(";") or self.at("}") or self.at(",")):
                 raise Unsupported(f"`break` with a value (line {t.line})")
-            return N(kw, line=t.line)
+            return N(kw, label=label, line=t.line)
         if kw in ("unsafe", "async", "const", "let", "yield"):
             raise Unsupported(f"`{kw}` expression (line {t.line})")
         if kw == "move":
@@ -821,7 +898,17 @@ class Parser:
         params = []
         if t.val == "|":
             while not self.at("|"):
-                params.append(self.ident())
+                if self.at("("):                      # flat tuple pattern `(_, a)` / `(&i, d)`
+                    self.next(); comps = []
+                    while not self.at(")"):
+                        self.eat("&")
+                        comps.append("_" if self.eat("_") else self.ident())
+                        if not self.eat(","): break
+                    self.expect(")")
+                    params.append(tuple(comps))
+                else:
+                    self.eat("&")
+                    params.append("_" if self.eat("_") else self.ident())
                 if self.eat(":"): self.ty()
                 if not self.eat(","): break
             self.expect("|")
@@ -881,6 +968,7 @@ class Fn:
 
     @property
     def rust_name(self):
+        if getattr(self, "is_free", False): return f"{self.ty}::{self.name}"
         amp = "&" if "_ref" in (self.tag or "") else ""
         return f"<{amp}{self.ty} as {self.trait}>::{self.name}" if self.trait else f"{self.ty}::{self.name}"
 
@@ -953,7 +1041,7 @@ def register_macro(mod, toks, name, s_, e_):
     mod.macros[name] = (params, list(toks[bs:be]))
 
 
-def parse_items(toks, mod=None, macros=False, depth=0):
+def parse_items(toks, mod=None, macros=False, depth=0, modname=None):
     p = Parser(toks)
     mod = mod or Module()
     if depth > 8: raise Unsupported("macro expansion too deep")
@@ -1075,6 +1163,13 @@ def parse_items(toks, mod=None, macros=False, depth=0):
         if kw == "trait":
             parse_trait(p, mod)
             continue
+        if kw == "fn" and modname is not None:
+            p.next()
+            f = parse_fn(p, modname, None, {}, [], [], None)
+            if f is not None:
+                f.order = len(mod.fns); f.is_free = True
+                mod.fns.append(f)
+            continue
         if kw == "fn":
             p.next(); name = p.ident()
             while not p.at("{"): p.next()
@@ -1085,7 +1180,7 @@ def parse_items(toks, mod=None, macros=False, depth=0):
             name = p.ident(); p.next()
             s, e = p.skip_balanced(); p.eat(";")
             if macros and name in mod.macros:
-                parse_items(expand_macro(mod, name, toks[s:e], t.line), mod, macros, depth + 1)
+                parse_items(expand_macro(mod, name, toks[s:e], t.line), mod, macros, depth + 1, modname)
                 mod.notes.append(f"{name}!({' '.join(str(x.val) for x in toks[s:e])}): expanded")
                 continue
             mod.notes.append(f"{name}!({' '.join(str(x.val) for x in toks[s:e])}): macros are not expanded")
@@ -1312,6 +1407,10 @@ ZSTATIC = {"gcd": ("RInt.gcd", 2, "Z"), "lcm": ("RInt.lcm", 2, "Z"), "zero": ("0
            "default": ("0", 0, "Z"), "neg": ("RInt.neg", 1, "Z"), "add": ("RInt.add", 2, "Z"), "sub": ("RInt.sub", 2, "Z"),
            "mul": ("RInt.mul", 2, "Z"), "from_i32": ("RInt.from_i32", 1, "Option<Z>")}
 ZSTATIC_OWNERS = {"EucRing", "Ring", "Integer"}      # trait-qualified calls whose Self type is fixed by scalar arguments
+EMETH = {"is_zero": ("e.isZero", "bool"), "is_one": ("e.isOne", "bool"), "is_unit": ("e.isUnit", "bool"),
+         "normalizing_unit": ("e.normUnit", "E"), "inv": ("e.inv", "Option<E>")}
+MAT_MUT = {"swap_rows": (2, False), "swap_cols": (2, False), "mul_row": (2, True), "mul_col": (2, True),
+           "left_elementary": (3, True), "right_elementary": (3, True)}       # name -> (arity, needs the ring record)
 ORD = {"Less": "Ordering.lt", "Equal": "Ordering.eq", "Greater": "Ordering.gt"}
 
 
@@ -1343,6 +1442,7 @@ class Translator:
         self.mod, self.toks = mod, toks
         self.cfg = cfg or TARGETS["bitseq"]
         self.scalar = self.cfg["scalar"]
+        Translator.extra_reserved = {"m", "n", "e", "dbg", "α", "st_", "x_"} if self.cfg.get("eops") else set()
         self.done = {}        # Fn.key -> dict(text=.., pure=.., ret=.., aux=[..]) or Unsupported
         self.stack = []
         self.emitted = []     # keys in emission order
@@ -1359,11 +1459,17 @@ class Translator:
         self.fn_mode = None     # block mode of the function body (for `return`)
         self.loop_ctx = None    # (call head, read-only vars, state vars) of the enclosing `loop`
         self.scope_outer = set()
+        self.uses_opaque = []
+        self.for_ctx = None
         if self.cfg.get("const_generics"): self.tag_const_impls()
 
     # -- naming / types
     def lean_ty(self, t):
         if t in ("Z", "W"): return "Int"
+        if t == "E": return "α"
+        mm = re.fullmatch(r"M<(\w+),(\w+)>", t)
+        if mm: return f"(C09.Mat α {mm.group(1)} {mm.group(2)})"
+        if self.cfg.get("eops") and t in self.mod.structs: return f"({t}S α m n)"
         if t.startswith("(") and t != "()":
             return "(" + " × ".join(self.lean_ty(x) for x in split_top(t[1:-1])) + ")"
         if t in INT64: return "Nat"
@@ -1383,11 +1489,20 @@ class Translator:
         """normalise a parsed type string in the context of fn's impl"""
         g = self.generics_of(fn)
         if t in g["aliases"]: return g["aliases"][t]
+        ma = re.fullmatch(r"\[(.*);(\d+)\]", t)
+        if ma and int(ma.group(2)) <= 8:            # a fixed-size array is a tuple
+            return "(" + ",".join([self.norm_ty(ma.group(1), fn)] * int(ma.group(2))) + ")"
+        if re.fullmatch(r"M<\w+,\w+>", t): return t
+        if self.cfg.get("nat_usize") and t == "usize": return "usize"
         if t == "Self":
             if self.mod.stcparams.get(fn.ty) and self.carg_of(fn) is None:
                 raise Unsupported(f"`Self` = {fn.ty} without a const argument")
             return fn.ty
         if t == "i32" and self.cfg.get("int32"): return "W"
+        mlt = re.fullmatch(r"(\w+)<(.*)>", t)
+        if mlt and mlt.group(1) in self.cfg.get("list_types", {}):
+            inner = self.cfg["list_types"][mlt.group(1)].format(*split_top(mlt.group(2)))
+            return "List<" + self.norm_ty(inner, fn) + ">"
         if t in self.mod.aliases and not self.mod.aliases[t][0]:
             return self.norm_ty(self.mod.aliases[t][1], fn)
         if t.startswith("(") and t != "()":
@@ -1399,6 +1514,8 @@ class Translator:
             if len(ps) != len(args): raise Unsupported(f"type `{t}`")
             for p_, a_ in zip(ps, args): body = re.sub(r"(?<![\w])" + re.escape(p_) + r"(?![\w])", a_, body)
             return self.norm_ty(body, fn)
+        if m and m.group(1) in self.mod.structs and self.cfg.get("eops"):
+            return m.group(1)
         if m and m.group(1) in self.mod.structs and (self.mod.stparams.get(m.group(1)) or self.mod.stcparams.get(m.group(1))):
             raw = split_top(m.group(2))
             ntp, ncp = len(self.mod.stparams.get(m.group(1), [])), len(self.mod.stcparams.get(m.group(1), []))
@@ -1417,7 +1534,7 @@ class Translator:
         m = re.fullmatch(r"Option<(.*)>", t)
         if m: return f"Option<{self.norm_ty(m.group(1), fn)}>"
         if t in BADINT: raise Unsupported(f"type `{t}` (only the 64-bit unsigned integers are in the subset)")
-        if t in self.mod.structs and (self.mod.stparams.get(t) or self.mod.stcparams.get(t)):
+        if t in self.mod.structs and (self.mod.stparams.get(t) or self.mod.stcparams.get(t)) and not self.cfg.get("eops"):
             raise Unsupported(f"generic type `{t}` without arguments")
         if t in g["tvars"]: return t
         saved = self.tvars
@@ -1428,9 +1545,12 @@ class Translator:
             self.tvars = saved
         return t
 
+    extra_reserved = set()
+
     @staticmethod
     def ident(name):
-        return name + "_" if name in LEAN_RESERVED or name.startswith("_") and name != "_" else name
+        return name + "_" if (name in LEAN_RESERVED or name in Translator.extra_reserved or
+                              (name.startswith("_") and name != "_")) else name
 
     def lean_fn(self, f):
         nm = ".".join(self.ident(x) for x in f.name.split("."))
@@ -1470,6 +1590,9 @@ class Translator:
     def compat(a, b):
         if a == b or "!" in (a, b) or (a in INT64 and b in INT64 and "int" in (a, b)): return True
         if {a, b} == {"W", "int"}: return True
+        if a.startswith("(") and b.startswith("(") and a != "()" and b != "()":
+            xs, ys = split_top(a[1:-1]), split_top(b[1:-1])
+            return len(xs) == len(ys) and all(Translator.compat(x, y) for x, y in zip(xs, ys))
         if a.startswith("Option<") and b.startswith("Option<") and "Option<_>" in (a, b): return True
         return False
 
@@ -1504,10 +1627,12 @@ class Translator:
 
     def translate_fn(self, f):
         if f.generic: raise Unsupported(f.generic)
-        if f.ty not in self.types and not getattr(f, "is_trait_default", False) and f.ty not in self.cfg.get("scalar_types", []):
+        if f.ty not in self.types and not getattr(f, "is_trait_default", False) and \
+                not getattr(f, "is_free", False) and f.ty not in self.cfg.get("scalar_types", []):
             raise Unsupported(f"impl for unknown type {f.ty}")
         self.cur, self.ntmp, self.nloop, self.aux = f, 0, 0, []
         self.uses_fuel, self.ord_glob, self.loop_ctx = False, False, None
+        self.uses_opaque, self.for_ctx = [], None
         self.setup_generics(f)
         ret = self.norm_ty(f.ret, f)
         env = {}     # rust name -> (lean name, type, mutable)
@@ -1531,8 +1656,11 @@ class Translator:
             params.append((ln, self.lean_ty(t)))
         body = Parser(list(f.toks), f.body[0], f.body[1]).block()
         self.register_locals(f, body)
-        if f.selfk == "mut":
-            if ret != "()": raise Unsupported("`&mut self` method that also returns a value")
+        if f.selfk == "mut" and ret != "()":
+            self.fn_mode = ("mutval", ret)
+            code = self.tr_block(body, env, self.fn_mode)
+            lret = "(" + self.lean_ty(env["self"][1]) + " × " + self.lean_ty(ret) + ")"
+        elif f.selfk == "mut":
             self.fn_mode = ("vars", ["self"])
             code = self.tr_block(body, env, self.fn_mode)
             lret = self.lean_ty(env["self"][1])
@@ -1542,11 +1670,14 @@ class Translator:
             lret = self.lean_ty(ret)
         pure = not code.monadic() and not self.uses_fuel
         if self.uses_fuel: params = [("fuel", "Nat")] + params
+        sty_ = self.lean_ty(f.ty) if f.ty in self.types else None
+        params = [(nm, f"{unpar(sty_)} → Res {sty_}") for nm in self.uses_opaque] + params
         sig = " ".join(([self.gsig] if self.gsig else []) + [f"({n} : {unpar(t)})" for n, t in params])
         head = f"def {self.lean_fn(f)}" + (" " + sig if sig else "") + " : " + (unpar(lret) if pure else f"Res {lret}") + " :="
         lines = [f"/-- `{f.rust_name}` -/", head] + self.body_lines(code, "  ", not pure)
         # the callee analysis of this function is finished: restore nothing (state is per call)
-        return dict(text="\n".join(self.aux + ["\n".join(lines)]), pure=pure, ret=ret, fn=f, fuel=self.uses_fuel)
+        return dict(text="\n".join(self.aux + ["\n".join(lines)]), pure=pure, ret=ret, fn=f, fuel=self.uses_fuel,
+                    opaque=list(self.uses_opaque), mutval=(f.selfk == "mut" and ret != "()"))
 
     def register_locals(self, f, body):
         """nested fn items and `use` declarations of a function body"""
@@ -1599,7 +1730,7 @@ class Translator:
                     scal.add(tp)
         tparams = [t for t in f.tparams if t not in scal]
         bounds = [(t, b) for t, b in f.bounds if t not in scal]
-        for tp in scal: self.aliases[tp] = "Z"
+        for tp in scal: self.aliases[tp] = self.scalar
         if getattr(f, "ty", None) in self.cfg.get("scalar_types", []): self.aliases["Self"] = "Z"
         f = N("fnview", tparams=tparams, bounds=bounds)
         iters = {}
@@ -1624,8 +1755,11 @@ class Translator:
         parts = []
         if self.tvars: parts.append("{" + " ".join(self.tvars) + " : Type}")
         parts += [f"({n} : {a} → {u})" for (u, a), n in self.convs.items()]
+        if self.cfg.get("eops"):
+            parts = ["{α : Type} {m n : Nat} (e : C09.EOps α)"] + (["(dbg : Bool)"] if self.cfg.get("dbg_param") else []) + parts
         self.gsig = " ".join(parts)
-        self.gargs = [n for n in self.convs.values()]
+        self.gargs = (["(m := m)", "(n := n)", "e"] + (["dbg"] if self.cfg.get("dbg_param") else [])
+                      if self.cfg.get("eops") else []) + [n for n in self.convs.values()]
 
     def fresh(self):
         self.ntmp += 1
@@ -1647,6 +1781,7 @@ class Translator:
     def code_lines(self, code, ind, monadic):
         out = []
         for k, pat, t in code.items:
+            if k == "bind" and t == "Res.panic": t = "(Res.panic : Res Unit)"
             if k == "bind": out += self.term_lines(f"let {pat} ← ", t, ind, True)
             elif k == "let": out += self.term_lines(f"let {pat} := ", t, ind, False)
             else: out += self.term_lines("", t, ind, True)
@@ -1714,6 +1849,15 @@ class Translator:
         if mode[0] == "loop":
             _, head, ro, st = mode
             return False, (lambda its, term, ty, env: Code(its, ("m", " ".join([head] + [env[n][0] for n in ro + st]))))
+        if mode[0] == "mutval":
+            def k2(its, term, ty, env):
+                if term is None: raise Unsupported("block without a value where one is needed")
+                if not self.compat(mode[1], ty): raise Unsupported(f"value of type {ty} where {mode[1]} is expected")
+                self.last_ty = ty
+                return Code(list(its), ("pure", f"({env['self'][0]}, {unpar(term)})"))
+            return True, k2
+        if mode[0] == "forbody":
+            return False, (lambda its, term, ty, env: Code(list(its), ("pure", f"(Ctl.next {self.tup(env, mode[1])})")))
         raise AssertionError(mode)
 
     def seq_k(self, stmts, tail, env, K, rest_ids=frozenset()):
@@ -1724,6 +1868,19 @@ class Translator:
             if self.has_jump(st):
                 rs, rt = stmts[i + 1:], tail
                 ids = frozenset(self.idents(rs) | self.idents(rt)) | rest_ids
+                if st.kind == "let" and getattr(st, "els", None) is not None and not self.has_jump(st.init):
+                    its0, term0, ty0 = self.tr(st.init, env)
+                    if not (ty0.startswith("Option<") and ty0 != "Option<_>"):
+                        raise Unsupported(f"`let Some(..)` on {ty0} (line {st.line})")
+                    if not re.fullmatch(r"[\w.]+", term0):
+                        r0 = self.fresh(); its0 = its0 + [("let", r0, term0)]; term0 = r0
+                    env2 = dict(env)
+                    ln = self.ident(st.name)
+                    env2[st.name] = (ln, ty0[7:-1], False)
+                    c1 = self.seq_k(rs, rt, env2, K, rest_ids)
+                    th = Code([("bind", ln, f"Opt.unwrap {term0}")] + c1.items, c1.final)
+                    el = self.expr_k(st.els, env, K, ids)
+                    return Code(items + its0, ("m", IfTerm(f"Option.isSome {term0}", th, el)))
                 if st.kind == "let":
                     def k(its, term, ty, env2, st=st):
                         out = list(its)
@@ -1762,14 +1919,30 @@ class Translator:
             return K[1](its, None, "()", env)
         if e.kind == "return":
             return self.do_return(e, env)
-        if e.kind == "continue":
-            if self.loop_ctx is None: raise Unsupported(f"`continue` outside a `loop` (line {line})")
-            head, ro, st = self.loop_ctx
-            return Code([], ("m", " ".join([head] + [env[n][0] for n in ro + st])))
-        if e.kind == "break":
-            raise Unsupported(f"`break` (line {line})")
+        if e.kind in ("continue", "break"):
+            label = getattr(e, "label", None)
+            fc = self.for_ctx
+            if fc is not None and label is None:
+                return Code([], ("pure", f"(Ctl.{'next' if e.kind == 'continue' else 'stop'} {self.tup(env, fc['st'])})"))
+            if fc is not None:
+                oc = fc["outer_loop"]
+                if oc is not None and len(oc) > 3 and oc[3].get("label") == label and e.kind == "continue":
+                    fc["exits"] = True
+                    return Code([], ("pure", f"(Ctl.exit {self.tup(env, fc['st'])})"))
+                raise Unsupported(f"`{e.kind} {label}` (line {line})")
+            if self.loop_ctx is None: raise Unsupported(f"`{e.kind}` outside a loop (line {line})")
+            lc = self.loop_ctx
+            if label is not None and not (len(lc) > 3 and lc[3].get("label") == label):
+                raise Unsupported(f"`{e.kind} {label}` (line {line})")
+            head, ro, st = lc[0], lc[1], lc[2]
+            if e.kind == "continue":
+                return Code([], ("m", " ".join([head] + [env[n][0] for n in ro + st])))
+            if not (len(lc) > 3 and lc[3].get("brk")): raise Unsupported(f"`break` (line {line})")
+            return Code([], ("pure", self.tup(env, st)))
         if e.kind == "loop":
-            return self.tr_loop(e, env)
+            return self.tr_loop(e, env, K, rest_ids)
+        if e.kind == "for":
+            return self.tr_for_range(e, env, K, rest_ids)
         if e.kind == "block":
             saved = self.scope_outer
             self.scope_outer = set(env)
@@ -1794,6 +1967,13 @@ class Translator:
     def do_return(self, e, env):
         mode = self.fn_mode
         if self.loop_ctx is None and mode is None: raise Unsupported("`return` outside a function body")
+        if self.for_ctx is not None or (self.loop_ctx is not None and len(self.loop_ctx) > 3 and self.loop_ctx[3].get("brk")):
+            raise Unsupported(f"`return` inside a `for` loop / a `loop` with `break` (line {e.line})")
+        if mode[0] == "mutval":
+            if e.e is None or self.has_jump(e.e): raise Unsupported(f"`return` without a value (line {e.line})")
+            its, t, ty = self.tr(e.e, env)
+            if not self.compat(mode[1], ty): raise Unsupported(f"`return` of {ty} where {mode[1]} is expected (line {e.line})")
+            return Code(list(its), ("pure", f"({env['self'][0]}, {unpar(t)})"))
         if mode[0] == "vars":
             if e.e is not None: raise Unsupported(f"`return` with a value in a `&mut self` method (line {e.line})")
             return mk_code([], self.tup(env, mode[1]))
@@ -1805,9 +1985,64 @@ class Translator:
         if not self.compat(mode[1], ty): raise Unsupported(f"`return` of {ty} where {mode[1]} is expected (line {e.line})")
         return mk_code(its, t)
 
-    def tr_loop(self, e, env):
+    def loop_breaks(self, body, label):
+        """does the body contain a `break` that leaves this loop?"""
+        found = [False]
+
+        def go(n_, depth):
+            if isinstance(n_, (list, tuple)):
+                for v in n_: go(v, depth)
+                return
+            if not isinstance(n_, N): return
+            if n_.kind == "break" and ((getattr(n_, "label", None) is None and depth == 0) or
+                                       (label is not None and getattr(n_, "label", None) == label)):
+                found[0] = True
+            d2 = depth + 1 if n_.kind in ("for", "while", "loop") else depth
+            if n_.kind == "closure": return
+            for k_, v in n_.__dict__.items():
+                if k_ != "fns": go(v, d2)
+        go(body, 0)
+        return found[0]
+
+    def tr_loop_brk(self, e, env, K, rest_ids):
+        """`loop { … break … }`: a fuel function returning the state at the `break`; the code after the loop follows"""
+        if self.loop_ctx is not None or self.for_ctx is not None: raise Unsupported(f"nested `loop` (line {e.line})")
+        st = self.mutated(e.body, env)
+        used = self.used(e.body, env)
+        ro = [x for x in env if x in used and x not in st]
+        self.nloop += 1
+        fname = f"{self.lean_fn(self.cur)}_loop{self.nloop}"
+        opq = list(self.uses_opaque)
+        head = " ".join([fname] + self.gargs + opq + ["fuel"])
+        self.loop_ctx = (head, ro, st, dict(label=getattr(e, "label", None), brk=True))
+        saved = self.scope_outer
+        self.scope_outer = set(env)
+        try:
+            body = self.seq_k(list(e.body.stmts), e.body.tail, dict(env), self.mode_end(("loop", head, ro, st)))
+        finally:
+            self.loop_ctx = None
+            self.scope_outer = saved
+        sig = " ".join([f"({env[x][0]} : {unpar(self.lean_ty(env[x][1]))})" for x in ro + st])
+        rty = ("(" + " × ".join(self.lean_ty(env[x][1]) for x in st) + ")") if len(st) > 1 else \
+            (self.lean_ty(env[st[0]][1]) if st else "Unit")
+        psty = self.lean_ty(self.cur.ty) if self.cur.ty in self.types else None
+        osig = " ".join(f"({o_} : {unpar(psty)} → Res {psty})" for o_ in opq)
+        lines = [f"/-- the `loop` #{self.nloop} of `{self.cur.rust_name}` (fuel-bounded, left by `break`; state: {', '.join(st) or 'none'}) -/",
+                 f"def {fname} " + (self.gsig + " " if self.gsig else "") + (osig + " " if osig else "") + "(fuel : Nat)" +
+                 (" " + sig if sig else "") + f" : Res {rty} :=",
+                 "  match fuel with", "  | 0 => Res.err", "  | fuel + 1 =>"]
+        lines += self.body_lines(body, "    ", True)
+        self.aux.append("\n".join(lines) + "\n")
+        pat = self.tup(env, st)
+        call = " ".join([fname] + self.gargs + opq + [self.fuel_name()] + [env[x][0] for x in ro + st])
+        rest = K[1]([], None, "()", env)
+        return Code([("bind", pat if st else "_", call)] + rest.items, rest.final)
+
+    def tr_loop(self, e, env, K=None, rest_ids=frozenset()):
         """`loop { … }` without `break`: a fuel function whose result is the function's result; `continue` and the
         end of the body re-enter it, `return e` leaves it"""
+        if K is not None and self.loop_breaks(e.body, getattr(e, "label", None)):
+            return self.tr_loop_brk(e, env, K, rest_ids)
         if self.fn_mode is None or self.fn_mode[0] != "value":
             raise Unsupported(f"`loop` in a `&mut self` method (line {e.line})")
         if self.loop_ctx is not None: raise Unsupported(f"nested `loop` (line {e.line})")
@@ -1834,6 +2069,49 @@ class Translator:
         self.aux.append("\n".join(lines) + "\n")
         return Code([], ("m", " ".join([fname] + self.gargs + [self.fuel_name()] + [env[n][0] for n in ro + st])))
 
+    def closure_def(self, c, argtys, env):
+        """an auxiliary definition for the closure c (its captured variables become leading parameters);
+        returns (name, captured argument terms, result type, monadic?)"""
+        if len(c.params) != len(argtys): raise Unsupported(f"closure with {len(c.params)} parameters (line {c.line})")
+        if self.has_jump(c.body) or self.mutated(c.body, env):
+            raise Unsupported(f"closure that assigns captured variables or jumps (line {c.line})")
+        env2, sig, pre = dict(env), [], []
+        bound = set()
+        for k_, (p_, ty) in enumerate(zip(c.params, argtys)):
+            if isinstance(p_, tuple):
+                tys = split_top(ty[1:-1]) if ty.startswith("(") else []
+                if len(tys) != len(p_): raise Unsupported(f"closure pattern for an argument of type {ty} (line {c.line})")
+                an = f"x{k_}"
+                sig.append(f"({an} : {unpar(self.lean_ty(ty))})")
+                names = [("_" if n == "_" else self.ident(n)) for n in p_]
+                pre.append(("let", "(" + ", ".join(names) + ")", an))
+                for n, t_ in zip(p_, tys):
+                    if n != "_": env2[n] = (self.ident(n), t_, False); bound.add(n)
+            else:
+                an = "_" if p_ == "_" else self.ident(p_)
+                sig.append(f"({an if an != '_' else 'x' + str(k_)} : {unpar(self.lean_ty(ty))})")
+                if p_ != "_": env2[p_] = (an, ty, False); bound.add(p_)
+        used = self.used(c.body, env)
+        cap = [n for n in env if n in used and n not in bound]
+        self.nloop += 1
+        cname = f"{self.lean_fn(self.cur)}_closure{self.nloop}"
+        saved_fuel = self.uses_fuel
+        self.uses_fuel = False
+        code = self.tr_block(N("block", stmts=[], tail=c.body), env2, ("value", None))
+        cret = self.last_ty
+        code = Code(pre + code.items, code.final)
+        fuel_here = self.uses_fuel
+        self.uses_fuel = saved_fuel or fuel_here
+        mon = code.monadic()
+        csig = " ".join(([self.gsig] if self.gsig else []) + (["(fuel : Nat)"] if fuel_here else []) +
+                        [f"({env[n][0]} : {unpar(self.lean_ty(env[n][1]))})" for n in cap] + sig)
+        lret = self.lean_ty(cret)
+        lines = [f"/-- closure #{self.nloop} of `{self.cur.rust_name}` (captures: {', '.join(cap) or 'none'}) -/",
+                 f"def {cname} {csig} : " + (f"Res {lret}" if mon else unpar(lret)) + " :="]
+        lines += self.body_lines(code, "  ", mon)
+        self.aux.append("\n".join(lines) + "\n")
+        return cname, self.gargs + (["fuel"] if fuel_here else []) + [env[n][0] for n in cap], cret, mon
+
     def fuel_name(self):
         if self.cfg["fuel_param"]:
             self.uses_fuel = True
@@ -1841,7 +2119,7 @@ class Translator:
         return "loopFuel"
 
     def tr_block(self, block, env, mode):
-        if self.has_jump(block):
+        if self.has_jump(block) or mode[0] in ("mutval", "forbody"):
             saved = self.scope_outer
             self.scope_outer = set(env)
             try:
@@ -1900,6 +2178,15 @@ class Translator:
                     its += i2; comps.append((t, ty))
                 return its + self.bind_components([(nm, m) for nm, m in st.pat], comps, env, st.line)
             its, term, ty = self.tr(st.init, env)
+            if getattr(st, "els", None) is not None:
+                # `let Some(x) = e else { diverges }`; here the else block panics (a jumping one is handled by seq_k)
+                if not (ty.startswith("Option<") and ty != "Option<_>"): raise Unsupported(f"`let Some(..)` on {ty} (line {st.line})")
+                if not (st.els.tail is not None and st.els.tail.kind == "macro" and not st.els.stmts and
+                        st.els.tail.name in ("panic", "unreachable")):
+                    raise Unsupported(f"`let … else` whose else block is not a `panic!` (line {st.line})")
+                ln = self.ident(st.name)
+                env[st.name] = (ln, ty[7:-1], False)
+                return its + [("bind", ln, f"Opt.unwrap {term}")]
             return self.bind_pattern(st, its, term, ty, env)
         e = st.e
         while e.kind == "paren": e = e.e
@@ -1918,6 +2205,13 @@ class Translator:
         if e.kind == "macro":
             its, term, ty = self.tr(e, env)
             return its
+        if e.kind == "macro" and e.name in NOOP_MACROS:
+            return []
+        if e.kind == "iflet" and e.el is None:
+            return self.tr_iflet_mut(e, env)
+        if e.kind == "mcall" and e.name in MAT_MUT:
+            r_ = self.tr_mat_mut(e, env)
+            if r_ is not None: return r_
         if e.kind == "mcall":
             desug = self.desugar_mut_builtin(e, env)
             if desug is not None:
@@ -1929,6 +2223,57 @@ class Translator:
             raise Unsupported(f"`{e.kind}` in this position (line {e.line})")
         its, term, ty = self.tr(e, env)       # evaluated for its panics only
         return its
+
+    def tr_mat_mut(self, e, env):
+        """`place.swap_rows(i, j)` … on a matrix place (a field of a mutable struct variable, or a mutable local)"""
+        try:
+            root, field = self.place(e.recv, env)
+        except Unsupported:
+            return None
+        ln = env[root][0]
+        pty = env[root][1] if field is None else self.field_ty(env[root][1], field, e.line)
+        if not re.fullmatch(r"M<\w+,\w+>", pty): return None
+        arity, needs_e = MAT_MUT[e.name]
+        if len(e.args) != arity: raise Unsupported(f"`.{e.name}` with {len(e.args)} arguments (line {e.line})")
+        its, ts = [], []
+        for x in e.args:
+            i2, t, ty = self.tr(x, env)
+            its += i2; ts.append(t)
+        cur = ln if field is None else f"{ln}.{field}"
+        call = " ".join([f"Dense.{e.name}"] + (["e"] if needs_e else []) + [cur] + ts)
+        if field is None:
+            return its + [("bind", ln, call)]
+        r = self.fresh()
+        return its + [("bind", r, call), ("let", ln, f"{{ {ln} with {field} := {r} }}")]
+
+    def tr_iflet_mut(self, e, env):
+        """`if let Some(x) = place.as_mut() { body }`: the body updates the content of an `Option` field in place"""
+        sc = e.s
+        while sc.kind == "paren": sc = sc.e
+        if not (sc.kind == "mcall" and sc.name == "as_mut" and not sc.args):
+            raise Unsupported(f"`if let Some(..) = …` without `else` on something other than `x.as_mut()` (line {e.line})")
+        root, field = self.place(sc.recv, env)
+        if field is None: raise Unsupported(f"`as_mut()` on a variable (line {e.line})")
+        ln = env[root][0]
+        oty = self.field_ty(env[root][1], field, e.line)
+        if not oty.startswith("Option<"): raise Unsupported(f"`as_mut()` on a field of type {oty} (line {e.line})")
+        if self.has_jump(e.th): raise Unsupported(f"jump inside `if let … as_mut()` (line {e.line})")
+        mv = self.mutated(e.th, env)
+        if mv: raise Unsupported(f"`if let … as_mut()` body assigns {', '.join(mv)} (line {e.line})")
+        v = self.ident(e.var)
+        env2 = dict(env)
+        env2[e.var] = (v, oty[7:-1], True)
+        body = self.tr_block(e.th, env2, ("vars", [e.var]))
+        th = Code([("bind", v, f"Opt.unwrap {ln}.{field}")] + body.items[:], None)
+        # the body yields the new content; wrap it into the struct
+        k_, t_ = body.final
+        r = self.fresh()
+        if k_ == "pure":
+            th = Code(th.items, ("pure", f"{{ {ln} with {field} := some {t_} }}"))
+        else:
+            th = Code(th.items + [("bind", r, t_)], ("pure", f"{{ {ln} with {field} := some {r} }}"))
+        el = Code([], ("pure", ln))
+        return [("bind", ln, IfTerm(f"Option.isSome {ln}.{field}", th, el))]
 
     def desugar_mut_builtin(self, e, env, dry=False):
         """`place.add_assign(x)` … on a scalar place, `place.set_zero()` / `set_one()`: as assignments"""
@@ -2062,6 +2407,12 @@ class Translator:
     def field_ty(self, sty, field, line):
         if sty not in self.mod.structs: raise Unsupported(f"field `.{field}` of a value of type {sty} (line {line})")
         for f, t in self.mod.structs[sty]:
+            if f == field and (sty, field) in self.cfg.get("field_dims", {}):
+                r_, c_ = self.cfg["field_dims"][(sty, field)]
+                mt = f"M<{r_},{c_}>"
+                if re.fullmatch(r"Mat<\w+>", t): return mt
+                if re.fullmatch(r"Option<Mat<\w+>>", t): return f"Option<{mt}>"
+                raise Unsupported(f"field {field}: type {t}")
             if f == field:
                 if t in self.mod.aliases and not self.mod.aliases[t][0]: t = self.mod.aliases[t][1]
                 if t == "i32" and self.cfg.get("int32"): return "W"
@@ -2108,7 +2459,63 @@ class Translator:
         call = " ".join([fname] + self.gargs + [self.fuel_name()] + [env[n][0] for n in ro + st])
         return [("bind", pat if st else "_", call)]
 
+    def tr_for_range(self, e, env, K=None, rest_ids=frozenset()):
+        """`for k in lo..hi { body }` through `Loop.forRange`; the body is an auxiliary definition returning `Ctl`"""
+        it = e.it
+        while it.kind == "paren": it = it.e
+        if it.kind != "range": raise Unsupported(f"`continue`/`break` inside a `for` loop over a non-range (line {e.line})")
+        i1, lo, tlo = self.tr(it.lo, env)
+        i2, hi, thi = self.tr(it.hi, env)
+        if tlo not in INT64 or thi not in INT64: raise Unsupported(f"`for` over {tlo}..{thi} (line {e.line})")
+        st = [x for x in self.mutated(e.body, env) if x != e.var]
+        used = self.used(e.body, env)
+        ro = [n_ for n_ in env if n_ in used and n_ not in st and n_ != e.var]
+        self.nloop += 1
+        fname = f"{self.lean_fn(self.cur)}_for{self.nloop}"
+        env2 = dict(env)
+        lv = "x_" if e.var == "_" else self.ident(e.var)
+        if e.var != "_": env2[e.var] = (lv, "usize", False)
+        saved = (self.for_ctx, self.loop_ctx, self.uses_fuel, self.scope_outer)
+        fc = dict(st=st, outer_loop=self.loop_ctx, exits=False)
+        self.for_ctx, self.loop_ctx, self.uses_fuel, self.scope_outer = fc, None, False, set(env)
+        try:
+            body = self.seq_k(list(e.body.stmts), e.body.tail, env2, self.mode_end(("forbody", st)))
+            fuel_here = self.uses_fuel
+        finally:
+            self.for_ctx, self.loop_ctx, self.uses_fuel, self.scope_outer = saved[0], saved[1], saved[2] or self.uses_fuel, saved[3]
+        sty = ("(" + " × ".join(self.lean_ty(env[x][1]) for x in st) + ")") if len(st) > 1 else \
+            (self.lean_ty(env[st[0]][1]) if st else "Unit")
+        pat = self.tup(env, st)
+        opq = list(self.uses_opaque)
+        psty = self.lean_ty(self.cur.ty) if self.cur.ty in self.types else None
+        csig = " ".join(([self.gsig] if self.gsig else []) + [f"({o_} : {unpar(psty)} → Res {psty})" for o_ in opq] +
+                        (["(fuel : Nat)"] if fuel_here else []) +
+                        [f"({env[x][0]} : {unpar(self.lean_ty(env[x][1]))})" for x in ro] +
+                        [f"({lv} : Nat)", f"(st_ : {unpar(sty)})"])
+        pre = [("let", pat, "st_")] if st else []
+        body = Code(pre + body.items, body.final)
+        lines = [f"/-- body of the `for` loop #{self.nloop} of `{self.cur.rust_name}` (state: {', '.join(st) or 'none'}) -/",
+                 f"def {fname} {csig} : Res (Ctl {sty}) :="]
+        lines += self.body_lines(body, "  ", True)
+        self.aux.append("\n".join(lines) + "\n")
+        fcall = "(" + " ".join([fname] + self.gargs + opq + (["fuel"] if fuel_here else []) + [env[x][0] for x in ro]) + ")"
+        fin = self.fresh()
+        items = i1 + i2 + [("bind", f"({pat if st else '_'}, {fin})", f"Loop.forRange {lo} {hi} {fcall} {pat if st else '()'}")]
+        if K is None:
+            if fc["exits"]: raise Unsupported(f"jump out of a `for` loop in this position (line {e.line})")
+            return items
+        rest = K[1]([], None, "()", env)
+        if not fc["exits"]:
+            return Code(items + rest.items, rest.final)
+        lc = self.loop_ctx
+        outer = Code([], ("m", " ".join([lc[0]] + [env[x][0] for x in lc[1] + lc[2]])))
+        return Code(items, ("m", IfTerm(fin, rest, outer)))
+
     def tr_for(self, e, env):
+        it0 = e.it
+        while it0.kind == "paren": it0 = it0.e
+        if it0.kind == "range":
+            return self.tr_for_range(e, env)
         if self.has_jump(e): raise Unsupported(f"`return`/`continue`/`break` inside a `for` loop (line {e.line})")
         its, it, ity = self.tr(e.it, env)
         m = re.fullmatch(r"List<(.*)>", ity)
@@ -2137,6 +2544,11 @@ class Translator:
 
     def tr_mut_call(self, e, callee, env):
         root, field = self.place(e.recv, env)
+        okey = (callee.ty, callee.name)
+        if okey in self.cfg.get("opaque_methods", {}) and field is None and not e.args:
+            nm = self.cfg["opaque_methods"][okey]
+            if nm not in self.uses_opaque: self.uses_opaque.append(nm)
+            return [("bind", env[root][0], f"{nm} {env[root][0]}")]
         if field is not None: raise Unsupported(f"`&mut self` call on a field (line {e.line})")
         info = self.translate_callee(callee)
         its, args = self.tr_args(e.args, callee, env, e.line)
@@ -2146,12 +2558,12 @@ class Translator:
 
     def translate_callee(self, callee):
         saved = (self.cur, self.ntmp, self.nloop, self.aux, self.tvars, self.aliases, self.convs, self.gsig, self.gargs,
-                 self.uses_fuel, self.ord_glob, self.fn_mode, self.loop_ctx)
+                 self.uses_fuel, self.ord_glob, self.fn_mode, self.loop_ctx, self.uses_opaque, self.for_ctx)
         try:
             return self.translate(callee)
         finally:
             (self.cur, self.ntmp, self.nloop, self.aux, self.tvars, self.aliases, self.convs, self.gsig, self.gargs,
-             self.uses_fuel, self.ord_glob, self.fn_mode, self.loop_ctx) = saved
+             self.uses_fuel, self.ord_glob, self.fn_mode, self.loop_ctx, self.uses_opaque, self.for_ctx) = saved
 
     # -- variable analysis
     def walk(self, n, fn):
@@ -2235,7 +2647,13 @@ class Translator:
 
     def call_user(self, callee, recv, args, env, line):
         if callee.selfk == "mut":
-            raise Unsupported(f"`&mut self` method {callee.rust_name} used inside an expression (line {line})")
+            info = self.translate_callee(callee)
+            if not info.get("mutval") or recv is None or not re.fullmatch(r"\w+", recv):
+                raise Unsupported(f"`&mut self` method {callee.rust_name} used inside an expression (line {line})")
+            its, a = self.tr_args(args, callee, env, line)
+            r = self.fresh()
+            call = " ".join([self.lean_fn(callee)] + self.fuel_arg(info) + [recv] + a)
+            return its + [("bind", f"({recv}, {r})", call)], r, info["ret"]
         cg = self.generics_of(callee)
         if cg["tvars"] or cg["convs"]: raise Unsupported(f"call of the generic function {callee.rust_name} (line {line})")
         info = self.translate_callee(callee)
@@ -2254,6 +2672,11 @@ class Translator:
         f = self.cur
         while getattr(f, "outer", None) is not None: f = f.outer
         return f.key
+
+    @staticmethod
+    def tuple_proj(t, k, n):
+        """Lean projection of component k of an n-tuple (right-nested pairs)"""
+        return t + ".2" * k + (".1" if k < n - 1 else "")
 
     @staticmethod
     def field_name(f):
@@ -2294,10 +2717,14 @@ class Translator:
         return b is None or callee.cparams or a == b
 
     def fuel_arg(self, info):
+        out = list(self.gargs) if self.cfg.get("eops") else []
+        for nm in info.get("opaque", []):
+            if nm not in self.uses_opaque: self.uses_opaque.append(nm)
+            out.append(nm)
         if info.get("fuel"):
             self.uses_fuel = True
-            return ["fuel"]
-        return []
+            out.append("fuel")
+        return out
 
     def resolve_method(self, e, env):
         """user method a method call refers to, or None (builtin)"""
@@ -2321,13 +2748,32 @@ class Translator:
             return self.tr(e.e, env)
         if k == "int":
             if e.v > 2 ** 64 - 1: raise Unsupported(f"integer literal {e.v} does not fit in 64 bits (line {line})")
-            return [], str(e.v), (e.suffix or "int")
+            return [], str(e.v), (e.suffix or self.cfg.get("int_lit") or "int")
         if k == "bool":
             return [], ("true" if e.v else "false"), "bool"
         if k == "unit":
             return [], "()", "()"
         if k == "zlit":
             return [], str(e.v), "Z"
+        if k == "index":
+            its, t, ty = self.tr(e.e, env)
+            ix = e.ix
+            while ix.kind == "paren": ix = ix.e
+            if re.fullmatch(r"M<\w+,\w+>", ty) and ix.kind == "tuple" and len(ix.es) == 2:
+                i2, a, ta = self.tr(ix.es[0], env)
+                i3, b, tb = self.tr(ix.es[1], env)
+                if ta not in INT64 or tb not in INT64: raise Unsupported(f"matrix index of type ({ta}, {tb}) (line {line})")
+                r = self.fresh()
+                return its + i2 + i3 + [("bind", r, f"Dense.get {t} {a} {b}")], r, "E"
+            if ty.startswith("(") and ix.kind == "int":
+                comps = split_top(ty[1:-1])
+                if ix.v < len(comps): return its, self.tuple_proj(t, ix.v, len(comps)), comps[ix.v]
+            raise Unsupported(f"index expression on a value of type {ty} (line {line})")
+        if k == "range":
+            i1, a, ta = self.tr(e.lo, env)
+            i2, b, tb = self.tr(e.hi, env)
+            if ta not in INT64 or tb not in INT64: raise Unsupported(f"range over {ta}..{tb} (line {line})")
+            return i1 + i2, f"(List.range' {a} ({b} - {a}))", "List<usize>"
         if k == "tuple":
             its, ts, tys = [], [], []
             for x in e.es:
@@ -2341,6 +2787,10 @@ class Translator:
             return self.tr_path(e, env)
         if k == "field":
             its, t, ty = self.tr(e.e, env)
+            if ty.startswith("(") and ty != "()" and e.name.isdigit():
+                comps = split_top(ty[1:-1])
+                if int(e.name) >= len(comps): raise Unsupported(f"tuple field .{e.name} of {ty} (line {line})")
+                return its, self.tuple_proj(t, int(e.name), len(comps)), comps[int(e.name)]
             return its, f"{t}.{self.field_name(e.name)}", self.field_ty(ty, e.name, line)
         if k == "un":
             its, t, ty = self.tr(e.e, env)
@@ -2349,6 +2799,8 @@ class Translator:
                 if ty == "bool": return its, f"(!{t})", ty
                 if ty in INT64: return its, f"(U64.not {t})", ty
                 raise Unsupported(f"`!` on {ty} (line {line})")
+            if e.op == "-" and ty == "E":
+                return its, f"(e.neg {t})", ty
             if e.op == "-" and ty == "W":
                 r = self.fresh()
                 return its + [("bind", r, f"I32.neg {t}")], r, "W"
@@ -2438,6 +2890,19 @@ class Translator:
 
     def binop(self, op, a, ta, b, tb, line):
         """items, term, type of `a op b` for already translated pure operands"""
+        if "E" in (ta, tb):
+            if ta != tb: raise Unsupported(f"`{op}` on {ta}, {tb} (line {line})")
+            f = {"+": "e.add", "-": "e.sub", "*": "e.mul", "/": "e.quo", "%": "e.rem"}.get(op)
+            if f: return [], f"({f} {a} {b})", "E"
+            if op == "==": return [], f"(e.beq {a} {b})", "bool"
+            if op == "!=": return [], f"(!(e.beq {a} {b}))", "bool"
+            raise Unsupported(f"`{op}` on ring elements (line {line})")
+        if self.cfg.get("nat_usize") and ta in INT64 and tb in INT64 and op in ("+", "*", "-"):
+            ty = self.join_int(ta, tb, op, line)
+            if op == "-":
+                r = self.fresh()
+                return [("bind", r, f"U64.sub {a} {b}")], r, ty
+            return [], f"({a} {op} {b})", ty
         if "W" in (ta, tb):
             if ta == "int" and re.fullmatch(r"\d+", a): ta = "W"
             if tb == "int" and re.fullmatch(r"\d+", b): tb = "W"
@@ -2709,10 +3174,15 @@ class Translator:
 
     def tr_macro(self, e, env):
         nm, line = e.name, e.line
+        if nm in NOOP_MACROS:
+            return [], "()", "()"
         if nm in ("assert", "debug_assert"):
             if not e.args: raise Unsupported(f"`{nm}!` without condition (line {line})")
             its, c, ty = self.tr(e.args[0], env)
             if ty != "bool": raise Unsupported(f"`{nm}!` on {ty} (line {line})")
+            if nm == "debug_assert" and self.cfg.get("dbg_param"):
+                if its: raise Unsupported(f"`debug_assert!` whose condition can panic (line {line})")
+                return [("do", None, f"Res.assert (!dbg || {c})")], "()", "()"
             return its + [("do", None, f"Res.assert {c}")], "()", "()"
         if nm in ("assert_eq", "assert_ne", "debug_assert_eq", "debug_assert_ne"):
             if len(e.args) < 2: raise Unsupported(f"`{nm}!` needs two arguments (line {line})")
@@ -2734,6 +3204,11 @@ class Translator:
             if len(decl) != len(e.args): raise Unsupported(f"constructor `{name}(..)` with {len(e.args)} arguments (line {line})")
             fields = [(f, a) for (f, _), a in zip(decl, e.args)]
             return self.tr_struct(N("struct", path=[name], fields=fields, line=line), env)
+        if len(segs) == 1 and self.cfg.get("free_fns") and segs[0] not in env:
+            c = [f for f in self.mod.fns if getattr(f, "is_free", False) and f.name == segs[0] and
+                 (not getattr(self.cur, "is_free", False) or f.ty == self.cur.ty)]
+            if len(c) == 1:
+                return self.call_user(c[0], None, e.args, env, line)
         if len(segs) == 1 and segs[0] in self.local_fns.get(self.outer_key(), {}):
             return self.call_user(self.local_fns[self.outer_key()][segs[0]], None, e.args, env, line)
         if len(segs) == 2 and self.cfg.get("int32"):
@@ -2754,6 +3229,21 @@ class Translator:
             # `Add::add(x, y)`: the operator impl of the argument type
             return self.tr_bin(N("bin", op={"Add": "+", "Sub": "-", "Mul": "*", "Div": "/", "Rem": "%"}[segs[0]],
                                  l=e.args[0], r=e.args[1], line=line), env)
+        if len(segs) == 2 and self.scalar == "E":
+            owner = segs[0]
+            if self.aliases.get(owner) == "E" or owner in ("EucRing", "Ring"):
+                if segs[1] in ("one", "zero") and not e.args and self.aliases.get(owner) == "E":
+                    return [], f"e.{segs[1]}", "E"
+                if segs[1] == "gcdx" and len(e.args) == 2:
+                    i1, a, ta = self.tr(e.args[0], env)
+                    i2, b, tb = self.tr(e.args[1], env)
+                    if ta != "E" or tb != "E": raise Unsupported(f"`gcdx` on {ta}, {tb} (line {line})")
+                    return i1 + i2, f"(e.gcdx {a} {b})", "(E,E,E)"
+        if segs == ["min"] and len(e.args) == 2 and "min" not in env:
+            i1, a, ta = self.tr(e.args[0], env)
+            i2, b, tb = self.tr(e.args[1], env)
+            ty = self.join_int(ta, tb, "min", line)
+            return i1 + i2, f"(min {a} {b})", ty
         if len(segs) == 2 and self.scalar:
             owner = segs[0]
             isz = self.aliases.get(owner) == "Z" or \
@@ -2829,6 +3319,62 @@ class Translator:
                     its2 += i2; ts.append(t)
                 r = self.fresh()
                 return i1 + its2 + [("bind", r, f"{ZMETH_M[name][0]} {recv} {' '.join(ts)}")], r, ZMETH_M[name][2]
+        if rty == "E":
+            if name == "clone" and not e.args: return i1, recv, rty
+            if name in EMETH and not e.args:
+                return i1, f"({EMETH[name][0]} {recv})", EMETH[name][1]
+            if name == "divides" and len(e.args) == 1:
+                i2, b, tb = self.tr(e.args[0], env)
+                if tb != "E": raise Unsupported(f"`.divides` with an argument of type {tb} (line {line})")
+                return i1 + i2, f"(e.dvd {recv} {b})", "bool"
+        mm = re.fullmatch(r"M<(\w+),(\w+)>", rty)
+        if mm:
+            r_, c_ = mm.group(1), mm.group(2)
+            if not e.args:
+                if name == "nrows": return i1, r_, "usize"
+                if name == "ncols": return i1, c_, "usize"
+                if name == "shape": return i1, f"({r_}, {c_})", "(usize,usize)"
+                if name == "is_zero": return i1, f"(C09.isZeroMat e.toROps {recv})", "bool"
+                if name == "is_diag": return i1, f"(C09.isDiag e.toROps {recv})", "bool"
+                if name == "inner": return i1, recv, rty
+            if name in ("row", "column") and len(e.args) == 1:
+                i2, a, ta = self.tr(e.args[0], env)
+                if ta not in INT64: raise Unsupported(f"`.{name}` with an argument of type {ta} (line {line})")
+                r = self.fresh()
+                return i1 + i2 + [("bind", r, f"Dense.{name} {recv} {a}")], r, "List<E>"
+        if rty.startswith("List<"):
+            elt = rty[5:-1]
+            if name == "count" and not e.args: return i1, f"(List.length {recv})", "usize"
+            if name == "next" and not e.args: return i1, f"(List.head? {recv})", f"Option<{elt}>"
+            if name in ("filter", "map") and len(e.args) == 1 and e.args[0].kind == "closure":
+                cname, cargs, cret, mon = self.closure_def(e.args[0], [elt], env)
+                call = "(" + " ".join([cname] + cargs) + ")"
+                if name == "filter":
+                    if cret != "bool": raise Unsupported(f"`filter` closure returning {cret} (line {line})")
+                    if mon:
+                        r = self.fresh()
+                        return i1 + [("bind", r, f"Iter.filterM {call} {recv}")], r, rty
+                    return i1, f"(List.filter {call} {recv})", rty
+                if mon:
+                    r = self.fresh()
+                    return i1 + [("bind", r, f"Iter.mapM {call} {recv}")], r, f"List<{cret}>"
+                return i1, f"(List.map {call} {recv})", f"List<{cret}>"
+            if name == "min_by" and len(e.args) == 1 and e.args[0].kind == "closure":
+                cname, cargs, cret, mon = self.closure_def(e.args[0], [elt, elt], env)
+                if mon or cret != "Ordering": raise Unsupported(f"`min_by` closure (line {line})")
+                return i1, "(Iter.minBy (" + " ".join([cname] + cargs) + f") {recv})", f"Option<{elt}>"
+        if rty.startswith("Option<") and rty != "Option<_>":
+            inner = rty[7:-1]
+            if name == "map" and len(e.args) == 1 and e.args[0].kind == "closure":
+                cname, cargs, cret, mon = self.closure_def(e.args[0], [inner], env)
+                if mon: raise Unsupported(f"`Option::map` with a closure that can panic (line {line})")
+                return i1, "(Option.map (" + " ".join([cname] + cargs) + f") {recv})", f"Option<{cret}>"
+            if name == "unwrap_or" and len(e.args) == 1:
+                i2, d, td = self.tr(e.args[0], env)
+                if not self.compat(inner, td): raise Unsupported(f"`unwrap_or` of type {td} (line {line})")
+                return i1 + i2, f"(Opt.unwrap_or {recv} {d})", inner
+            if name in ("is_some", "is_none") and not e.args:
+                return i1, f"(Option.{'isSome' if name == 'is_some' else 'isNone'} {recv})", "bool"
         if rty == "W":
             if name == "clone" and not e.args: return i1, recv, rty
             if name in WMETH and len(e.args) == WMETH[name][1]:
@@ -2861,6 +3407,16 @@ class Translator:
             if name == "clone" and not e.args: return i1, recv, rty
         if rty.startswith("List<") and name in ("into_iter", "iter") and not e.args:
             return i1, recv, rty
+        if rty.startswith("List<") and name == "filter_map" and len(e.args) == 1 and e.args[0].kind == "closure":
+            cname, cargs, cret, mon = self.closure_def(e.args[0], [rty[5:-1]], env)
+            if not cret.startswith("Option<"): raise Unsupported(f"`filter_map` closure returning {cret} (line {line})")
+            call = " ".join([cname] + cargs)
+            if mon:
+                r = self.fresh()
+                return i1 + [("bind", r, f"Iter.filterMapM ({call}) {recv}")], r, f"List<{cret[7:-1]}>"
+            return i1, f"(List.filterMap ({call}) {recv})", f"List<{cret[7:-1]}>"
+        if rty in ("List<W>", "List<Z>") and name == "min" and not e.args:
+            return i1, f"(Iter.min {recv})", f"Option<{rty[5:-1]}>"
         if rty == "Ordering" and name in ("then", "then_with") and len(e.args) == 1:
             a = e.args[0]
             if name == "then_with":
@@ -2888,10 +3444,12 @@ def generate(src_text, src_label, target="bitseq"):
     texts = src_text if isinstance(src_text, list) else [src_text]
     toks, allids, mod = None, set(), None
     Parser.const_generics = bool(cfg.get("const_generics"))
-    for text in texts:
+    srcs = cfg["src"] if isinstance(cfg["src"], list) else [cfg["src"]]
+    for k_, text in enumerate(texts):
         toks = tokenize(text)
         allids |= {t.val for t in toks if t.kind == "id"}
-        mod = parse_items(toks, mod, cfg["macros"])
+        stem = os.path.splitext(os.path.basename(srcs[k_]))[0] if cfg.get("free_fns") else None
+        mod = parse_items(toks, mod, cfg["macros"], 0, stem)
     tr = Translator(mod, toks, allids, cfg)
     parts = []
     # enums
@@ -2906,12 +3464,19 @@ def generate(src_text, src_label, target="bitseq"):
         parts.append("\n".join(lines))
     for name in sorted(mod.structs):
         fs = mod.structs[name]
-        lines = [f"/-- `struct {name}` -/", f"structure {name}S where"]
-        for f, t in fs:
-            if t in BADINT: raise Unsupported(f"struct {name}: field {f} of type {t}")
-            lt = tr.lean_ty(tr.field_ty(name, f, 0))
-            lines.append(f"  {tr.field_name(f)} : {lt}   -- {t}")
-        lines.append("deriving DecidableEq, Repr, Inhabited")
+        eo = cfg.get("eops")
+        lines = [f"/-- `struct {name}` -/", f"structure {name}S" + (" (α : Type) (m n : Nat)" if eo else "") + " where"]
+        try:
+            for f, t in fs:
+                if t in BADINT: raise Unsupported(f"struct {name}: field {f} of type {t}")
+                lt = tr.lean_ty(tr.field_ty(name, f, 0))
+                lines.append(f"  {tr.field_name(f)} : {unpar(lt) if eo else lt}   -- {t}")
+        except Unsupported as ex:
+            if not eo: raise
+            mod.notes.append(f"struct {name}: {ex}")
+            tr.types.discard(name)
+            continue
+        if not eo: lines.append("deriving DecidableEq, Repr, Inhabited")
         parts.append("\n".join(lines))
     for (ty, name) in sorted(mod.consts):
         cty, e = mod.consts[(ty, name)]
@@ -2924,6 +3489,7 @@ def generate(src_text, src_label, target="bitseq"):
         parts.append(f"/-- `{ty}::{name}` -/\ndef {ty}.{tr.ident(name)} : {tr.lean_ty(cty)} := {unpar(t)}")
     required = set(REQUIRED)
     skipped = []
+    fparts_extra, extracted = [], []
     keys = [f.key for f in mod.fns]
     for k in keys:
         if keys.count(k) > 1:
@@ -2935,16 +3501,38 @@ def generate(src_text, src_label, target="bitseq"):
         except Unsupported as e:
             if f.key in required: raise
             skipped.append((f, str(e)))
+    for (fty, fname, lname, vars_) in cfg.get("extract", []):
+        cand = [f for f in mod.fns if f.ty == fty and f.name == fname]
+        if len(cand) != 1: raise Unsupported(f"function {fty}::{fname} (for the extracted `let {lname}`) not found")
+        f = cand[0]
+        body = Parser(list(f.toks), f.body[0], f.body[1]).block()
+        lets = [st for st in body.stmts if st.kind == "let" and st.name == lname]
+        if len(lets) != 1: raise Unsupported(f"{fty}::{fname}: `let {lname} = …` not found at the top level of the body")
+        tr.cur, tr.ntmp, tr.nloop, tr.aux = f, 0, 0, []
+        tr.setup_generics(f)
+        env = {v: (tr.ident(v), t, False) for v, t in vars_}
+        extra = sorted(x for x in tr.idents(lets[0].init) if x not in env)
+        if extra: raise Unsupported(f"{fty}::{fname}: `let {lname}` also depends on {', '.join(extra)}")
+        saved_lit = tr.cfg.get("int_lit")
+        tr.cfg = dict(tr.cfg, int_lit=None)
+        its, t, ty = tr.tr(lets[0].init, env)
+        tr.cfg = dict(tr.cfg, int_lit=saved_lit)
+        if its: raise Unsupported(f"{fty}::{fname}: `let {lname}` is not a pure arithmetic expression")
+        sig = " ".join(f"({tr.ident(v)} : {unpar(tr.lean_ty(t_))})" for v, t_ in vars_)
+        fparts_extra.append(f"/-- the expression bound by `let {lname}` in `{fty}::{fname}` (free variables: "
+                            f"{', '.join(v for v, _ in vars_)}) -/\ndef {fty}.{fname}.{lname} {sig} : {unpar(tr.lean_ty(ty))} :=\n  {unpar(t)}")
+        extracted.append(f"{fty}::{fname} (only `let {lname} = …`)  ->  {fty}.{fname}.{lname}")
     missing = [k for k in REQUIRED if k not in tr.done]
     if missing:
         k = missing[0]
         raise Unsupported(f"required function {k[0]}::{k[2]}" + (f" (impl {k[1]})" if k[1] else "") + " not found in the source")
-    fparts = [tr.done[k]["text"] for k in tr.emitted]
+    fparts = [tr.done[k]["text"] for k in tr.emitted] + fparts_extra
     translated = [tr.done[k]["fn"] for k in tr.emitted]
     hdr = [f"import {m}" for m in cfg["imports"]] + ["/-",
            f"GENERATED by tools/rs2lean_fn.py from {src_label} on every ./check run — do not edit.",
            ""] + cfg["blurb"] + ["", "translated:"]
     hdr += [f"  {f.rust_name}  ->  {tr.lean_fn(f)}" for f in sorted(translated, key=lambda f: tr.lean_fn(f))]
+    hdr += [f"  {x}" for x in extracted]
     hdr += ["", "not translated:"]
     hdr += [f"  {f.rust_name}: {reason_clean(r, f)}" for f, r in sorted(skipped, key=lambda x: tr.lean_fn(x[0]))]
     hdr += [f"  {n}" for n in sorted(set(mod.notes))]
